@@ -276,6 +276,19 @@ func intBasic(t types.Type) *types.Basic {
 	return nil
 }
 
+// assumeTyped: a typing fact about a value computed at the current point. It is guarded by the reachability of the current
+// block: the same term may be ill-typed on paths that do not compute it (e.g. the length of s[1:] where len(s) == 0), and an
+// unguarded fact would make those paths contradictory (vacuously verified).
+func (e *Enc) assumeTyped(f string) {
+	if e.cur != nil {
+		if rc, ok := e.reach[e.cur]; ok && rc != "" && rc != "true" {
+			e.r.assume(fmt.Sprintf("(=> %s %s)", rc, f))
+			return
+		}
+	}
+	e.r.assume(f)
+}
+
 func (e *Enc) rangeAssume(term string, t types.Type) {
 	if b := intBasic(t); b != nil {
 		if _, ok := specialSort(typeFullName(types.Unalias(t))); ok {
@@ -283,7 +296,7 @@ func (e *Enc) rangeAssume(term string, t types.Type) {
 		}
 		lo, hi := intRange(b)
 		if lo != "" {
-			e.r.assume(fmt.Sprintf("(and (<= %s %s) (<= %s %s))", lo, term, term, hi))
+			e.assumeTyped(fmt.Sprintf("(and (<= %s %s) (<= %s %s))", lo, term, term, hi))
 		}
 	}
 }
@@ -315,13 +328,13 @@ func (e *Enc) typeInv(term string, t types.Type, depth int) {
 	}
 	if _, ok := t.Underlying().(*types.Slice); ok {
 		s := e.g().SortOf(t)
-		e.r.assume(fmt.Sprintf("(and (>= (%s_len %s) 0) (<= (%s_len %s) 4611686018427387904))", s, term, s, term))
-		e.r.assume(fmt.Sprintf("(=> (%s_nil %s) (= (%s_len %s) 0))", s, term, s, term))
+		e.assumeTyped(fmt.Sprintf("(and (>= (%s_len %s) 0) (<= (%s_len %s) 4611686018427387904))", s, term, s, term))
+		e.assumeTyped(fmt.Sprintf("(=> (%s_nil %s) (= (%s_len %s) 0))", s, term, s, term))
 		// element ranges for integer slices
 		if sl, ok := t.Underlying().(*types.Slice); ok {
 			if b := intBasic(sl.Elem()); b != nil {
 				lo, hi := intRange(b)
-				e.r.assume(fmt.Sprintf("(forall ((i!r Int)) (! (and (<= %s (select (%s_arr %s) i!r)) (<= (select (%s_arr %s) i!r) %s)) :pattern ((select (%s_arr %s) i!r))))", lo, s, term, s, term, hi, s, term))
+				e.assumeTyped(fmt.Sprintf("(forall ((i!r Int)) (! (and (<= %s (select (%s_arr %s) i!r)) (<= (select (%s_arr %s) i!r) %s)) :pattern ((select (%s_arr %s) i!r))))", lo, s, term, s, term, hi, s, term))
 			}
 		}
 	}
@@ -777,6 +790,29 @@ func (e *Enc) encodeBody() {
 					Src: "the body of loop " + li.name + " is reachable under its invariants"})
 			}
 		}
+		if debugCoverBlocks && e.depth == 0 {
+			// debugging: every block that holds a call must be reachable under the assumptions collected so far
+			hasCall, isPanic := false, false
+			for _, ins := range b.Instrs {
+				switch ins.(type) {
+				case *ssa.Call:
+					hasCall = true
+				case *ssa.Panic:
+					isPanic = true
+				}
+			}
+			if hasCall && !isPanic {
+				pos := ""
+				for _, ins := range b.Instrs {
+					if c, ok := ins.(*ssa.Call); ok && c.Pos().IsValid() {
+						pos = posStr(e.fn.Prog.Fset, c.Pos())
+						break
+					}
+				}
+				e.r.addObl(&Obligation{Name: fmt.Sprintf("%s#cover@block%d", e.r.fnShort, b.Index), Kind: "cover", Goal: e.reach[b], ExpSat: true,
+					Src: "block with a call at " + pos + " is reachable"})
+			}
+		}
 		for _, ins := range b.Instrs {
 			e.instr(ins)
 		}
@@ -807,6 +843,8 @@ func (e *Enc) encodeBody() {
 		}
 	}
 }
+
+var debugCoverBlocks bool
 
 func (e *Enc) collectDebug() {
 	e.dbg = map[string][]ssa.Value{}
